@@ -52,3 +52,6 @@ add("C12", "property-based testing with metamorphic pairs and differential valid
 add("C19", "property-based testing with a validity predicate: every output channel and every reachable error text scanned for 16-byte windows of the secret key components in raw / hex / decimal-list / base64 form; error paths reached by generated PEM text edits, DER mutations and wrong-algorithm loads",
     "Generated artefacts and generated error paths (text edits of the key's PEM, mutations of its DER, every wrong algorithm x entry point) under both back ends; the oracle is a leak scanner over four renderings whose sensitivity is self-checked against the explicit export in every artefact case.",
     "A leak is defined as a contiguous >= 16-byte window of a secret component; " + DEC + " for extracting the components.", "DESIGN.md §4 C19")
+add("C10", "mutation fuzzing + property-based testing with catch_unwind oracle: mutated valid artefacts and random bytes through every parsing entry point (and generation from whatever is accepted); full-domain generated parameters incl. oddities; recorded panic classes excluded by construction and confirmed in a side campaign; thorough adds coverage-guided libFuzzer targets",
+    "Generated-input search for panics over every parsing entry point and every generation function; 88 % of parameter cases are clean (any panic is a violation), 12 % carry exactly one trigger of a recorded known-finding class (only the recorded panic is tolerated and reported as KNOWN-FINDING). Non-termination is handled by a watchdog (exit 2).",
+    "catch_unwind observes every panic that unwinds; aborts would kill the harness (exit != 0/1, inconclusive).", "DESIGN.md §4 C10")
